@@ -361,6 +361,24 @@ pub fn cmd_ref(args: &Args) -> i32 {
     0
 }
 
+/// Development aid: what run `idx` would be, without executing it (`--min-n` filters).
+pub fn cmd_plan_info(args: &Args) -> i32 {
+    let seed = args.u64("seed", 1);
+    let start = args.u64("start", 0);
+    let count = args.u64("count", 1000);
+    let min_n = args.u64("min-n", 0) as usize;
+    let lim = limits(args);
+    for idx in start..start + count {
+        let plan = plan_run(seed, idx, &lim);
+        let n = plan.cases.iter().map(|c| c.n()).max().unwrap_or(0);
+        if n >= min_n {
+            let ops: Vec<String> = plan.history.iter().map(|h| format!("{}{}{}", h.op.name(), if h.bb { "+bb" } else { "" }, if h.with.is_some() { "+with" } else { "" })).collect();
+            println!("run={} n={} dim={} periodic={} family={} cases={} ops=[{}]", idx, n, plan.cases[0].dim, plan.cases[0].periodic, plan.cases[0].family, plan.cases.len(), ops.join(","));
+        }
+    }
+    0
+}
+
 /// One line per run, for determinism diffs between processes.
 pub fn cmd_trace(args: &Args) -> i32 {
     let seed = args.u64("seed", 1);
